@@ -362,3 +362,19 @@ Theorem C03_chain_with_credentials : forall cs (s : site) leaf q w ru,
   serve_part cs (chain_of s) leaf (set_path q (final_path (chain_of s) (q_path q))) w.
 Proof. exact chain_with_credentials. Qed.
 Print Assumptions C03_chain_with_credentials.
+
+(* `under` (the scope test on a canonical resource name used above) IS Path.Matches on such a name,
+   and the file the static resolver opens has such a name *)
+Theorem C03_under_is_path_matches : forall cs f b,
+  clean f = f -> ends_with_slash f = false -> path_matches cs f b = under cs f b.
+Proof. exact under_is_path_matches. Qed.
+Print Assumptions C03_under_is_path_matches.
+
+Theorem C03_resolved_canonical : forall p, rooted p -> resolved p <> [SLASH] ->
+  clean (resolved p) = resolved p /\ ends_with_slash (resolved p) = false.
+Proof. exact resolved_canonical. Qed.
+Print Assumptions C03_resolved_canonical.
+
+Example C03_resolved_canonical_nonvacuous :
+  rooted (bs "/pub/..//secret/./f.txt"%string) /\ resolved (bs "/pub/..//secret/./f.txt"%string) <> [SLASH].
+Proof. split; [eexists; reflexivity|vm_compute; discriminate]. Qed.
